@@ -64,6 +64,28 @@ fn check_fields(map: &HeaderMap, expected: &[Field], what: &str) -> Result<(), S
     compare_fields(map, expected).map_err(|e| format!("{}: {}", what, e))
 }
 
+/// The standalone parsers are syntax only: a field name that means something to HTTP (Host, Content-Length, Transfer-Encoding,
+/// Connection, ...) repeated two to four times - with equal, different or nonsensical values - is still a well-formed head and
+/// must come back complete. Overwrites 2..4 positions of `fields` with one such name.
+fn repeat_semantic_name(t: &mut Tape, fields: &mut [Field], st: &mut Stats) {
+    const NAMES: [&str; 10] = ["Host", "host", "Content-Length", "Transfer-Encoding", "Connection", "Cookie", "Expect", "Authorization", "Location", "Upgrade"];
+    const VALUES: [&str; 8] = ["h.test", "other.test", "5", "abc", "chunked", "close", "", "100-continue"];
+    if fields.len() < 2 {
+        return;
+    }
+    let name = *t.pick(&NAMES);
+    let k = t.range(2, 4.min(fields.len()));
+    for _ in 0..k {
+        let i = t.below(fields.len());
+        let mut n = name.as_bytes().to_vec();
+        if t.chance(30) {
+            n.make_ascii_uppercase();
+        }
+        fields[i] = Field { name: n, value: t.pick(&VALUES).as_bytes().to_vec(), ows_l: b" ".to_vec(), ows_r: vec![] };
+    }
+    st.class("semantic_name_repeated");
+}
+
 fn exec_response(t: &mut Tape, st: &mut Stats) -> Result<(), String> {
     let limit = *t.pick(&LIMITS);
     let status = gen_status(t);
@@ -75,6 +97,9 @@ fn exec_response(t: &mut Tape, st: &mut Stats) -> Result<(), String> {
         reason: gen_reason(t),
         fields: gen_fields(t, status, count, obs),
     };
+    if t.chance(20) {
+        repeat_semantic_name(t, &mut head.fields, st);
+    }
     // rarely a head of more than 64 KiB: one field value of 64..100 KiB (the field count stays what it is)
     if count >= 1 && count <= 8 && t.chance(1) {
         let n = *t.pick(&[65_530usize, 65_536, 70_000, 100_000]);
@@ -223,6 +248,9 @@ fn exec_request(t: &mut Tape, st: &mut Stats) -> Result<(), String> {
         let i = t.below(count);
         fields[i] = Field::new("Host", "h.test");
     }
+    if t.chance(25) {
+        repeat_semantic_name(t, &mut fields, st);
+    }
     if count >= 1 && count <= 8 && t.chance(1) {
         let i = t.below(count);
         fields[i] = Field { name: b"X-Huge".to_vec(), value: vec![b'h'; *t.pick(&[65_536usize, 70_000, 100_000])], ows_l: b" ".to_vec(), ows_r: vec![] };
@@ -308,7 +336,7 @@ pub static DEF: PropDef = PropDef {
     rule: "random heads for limits N in {0, 1, 4, 128} with field counts aimed at {0..N+2, exactly N, exactly N+1}: response heads \
 as in C05 (status 101..999, reasons, OWS, obs-text, repeated names, empty values) and request heads (nine standard methods, \
 lower-case variants, extension tokens over alnum + !*+-.^_`|~; origin-, absolute-, asterisk- and authority-form targets; \
-HTTP/1.0 and 1.1), each followed by 0..48 arbitrary tail bytes; 1 % of small heads carry a 64-100 KiB field value, 1 % of request heads a 64-70 KiB target. Oracle: complete head (with and without tail) => method/status, \
+HTTP/1.0 and 1.1), each followed by 0..48 arbitrary tail bytes; 1 % of small heads carry a 64-100 KiB field value, 1 % of request heads a 64-70 KiB target; 20-25 % repeat a name that means something to HTTP (Host, Content-Length, Transfer-Encoding, Connection, ...) two to four times with equal, different or nonsensical values - syntax only, so all of them must come back. Oracle: complete head (with and without tail) => method/status, \
 version, per-name ordered values and exactly |head| when count <= N, Err(HttpParseTooManyHeaders) when count > N; every strict \
 prefix (all lengths for heads <= 600 bytes) of a head within the limit => incomplete, never an error; partial response parser on \
 every prefix and on the complete head: never Err, and if it reports a response its status/version match and every reported \
